@@ -622,7 +622,8 @@ tree model (`createMissingPrefixes`, Model/Repair.lean, the subject of every `C1
 Props/C10) rebuilds the subtree in one pass and threads the tree through the document loop.  The
 theorems below (Lemmas/FpxRefine*.lean) say the two agree on every forest satisfying the invariant:
 same interning tables, same outcome, and the erased root tree of the forest model IS the tree model's
-result — so the C10 theorems hold of forest histories (`C10_forest_repair_writable`).  They live here
+result — so the C10 theorems hold of forest histories (`C10_forest_repair_writable`; with the round trip:
+`C10_reachable_repair_roundtrip` in Props/C10.lean, which imports this file).  They live here
 (not in Props/C10) because they are about handles staying meaningful: the handles of existing nodes
 are unchanged, every other parentless tree is untouched.
 
@@ -759,8 +760,8 @@ and therefore removes last entry first.  The theorems below (Lemmas/FpxRefineDed
 agree on every forest satisfying the invariant — removals on different elements touch different child
 lists, two removals on one child list commute (`removeNsKid_comm`) —, pass by pass and for the loop (both
 models give it the size of the erased root tree plus one as fuel).  So the C15 theorems hold of forest
-histories (`C15_forest_dedup_idem`, `C15_forest_dedup_serialises`).  They live here (not in Props/C15,
-which cannot import the forest lemma files next to the parser model) because they are about handles
+histories (`C15_forest_dedup_idem`, `C15_forest_dedup_serialises`; with the reparse clause:
+`C15_reachable_dedup` in Props/C15.lean, which imports this file).  They live here because they are about handles
 staying meaningful: no handle is created, the handles afterwards are the old ones without those of the
 removed namespace nodes, every other parentless tree is untouched.
 
@@ -947,7 +948,7 @@ theorem C04_xml_id_parse (s : IdStore) (hw : s.Wf) (hb : ∀ x ∈ s.forest.allH
     obtain ⟨name, ks, hf, hm⟩ := idEntries_ofTree_find _ t e he
     have hmem := idEntries_mem_handles _ e he
     have hl : (s.parseInto t).1.lookup s.forest.next e.1 = some e.2 := by
-      rw [IdStore.lookup_parseInto_new]; exact lookup_of_mem_nodup _ (hfst ▸ hn) e he
+      rw [IdStore.lookup_parseInto_new]; exact fi_lookup_of_mem_nodup _ (hfst ▸ hn) e he
     have hlive : (s.parseInto t).1.forest.isLive e.2 = true :=
       Forest.isLive_of_mem_allHandles (by rw [IdStore.parseInto_allHandles]; exact List.mem_append_right _ hmem)
     refine ⟨e.2, name, ks, (IdStore.xmlIdNode_eq_some_iff _ _ _ _).mpr ⟨hl, hlive⟩, ?_, hm⟩
@@ -1971,13 +1972,17 @@ end XotModel.Props
   the single properties from those at the tree level).  With `C04_reach_ext` they hold for every forest
   reachable from the empty store by an extended history, with no hypothesis on the tree at all.
 
-  The restated headline theorems live where their vocabulary can be imported together with the
-  forest lemma families: `C07_reachable_*` in Props/C07.lean, `C13_reachable_*` in Props/C13.lean (its
-  lemma family cannot be imported here: `XotModel.mem_of_lookup` is declared twice), `C09_reachable_*` in
-  Props/C09.lean; Props/C01, C10, C15 cannot import the forest families (`XotModel.Frame`), so their
-  hypotheses are derived HERE (`C04_reachable_hypotheses`, `C01_reachable_representable`) next to the
-  existing `C10_forest_*` / `C15_forest_*` corollaries.  C16 (token / event streams) has no structural
-  hypothesis to discharge: its theorems hold for every tree and every start path as they stand. -/
+  The restated headline theorems live with their properties: `C07_reachable_*` in Props/C07.lean,
+  `C13_reachable_*` in Props/C13.lean, `C09_reachable_*` in Props/C09.lean.  The HYPOTHESES of the C01 / C10 /
+  C15 theorems are derived here (`C04_reachable_hypotheses`, `C01_reachable_representable`) next to the
+  `C10_forest_*` / `C15_forest_*` refinement theorems; their CONCLUSIONS for reachable forests — the
+  end-to-end theorems history ∘ serialise ∘ parse, `C01_reachable_roundtrip`,
+  `C10_reachable_repair_roundtrip`, `C15_reachable_dedup` — are in the last sections of Props/C01.lean,
+  Props/C10.lean, Props/C15.lean, which import this file.  (Until the helper lemma names of the forest
+  families and of the tokenizer / builder / round-trip families were made unique — `ZipFrame` of
+  Lemmas/FinvZip.lean was a second `XotModel.Frame`, `mem_of_lookup`, `replaceKids_of_not_mem`, … were declared
+  twice — the two halves could not be imported into one module.)  C16 (token / event streams) has no
+  structural hypothesis to discharge: its theorems hold for every tree and every start path as they stand. -/
 
 namespace XotModel.Props
 open XotModel
@@ -2167,5 +2172,9 @@ example : Representable reachDocEnv reachDocRoot.erase = true := by
   rw [(C01_reachable_representable reachDocEnv reachDocCalls (by decide) (by decide +kernel)
     reachDocRoot reachDocRoot_mem reachDocEnv).2]
   decide +kernel
+/-- … its names are writable and it serialises to the text below; that `parse` gives the tree back is
+    `C01_reachable_roundtrip` (Props/C01.lean, last section) instantiated at this history. -/
+example : namesWritable reachDocEnv reachDocRoot.erase [] = some true ∧
+    toXmlString reachDocEnv reachDocRoot.erase [] = .ok "<!--c--><e a=\"v\">x</e>".toList := by decide +kernel
 
 end XotModel.Props
